@@ -141,7 +141,9 @@ func TestC11Sequential(t *testing.T) {
 				n, err := mc.Read(mbuf)
 				if err != nil {
 					if resent {
-						t.Fatalf("VERIF-INFRA: marker did not come back: %v", err)
+						// (a machine that stood still shows in the stall detector's VERIF-INFRA line,
+						// which takes precedence in the driver)
+						t.Fatalf("C11: neither %q nor its repetition, sent 1.5 s apart by remote %s whose connection is open and accepted, came out of that connection within 3 s (%v): the listener no longer delivers to an open connection", want, mc.RemoteAddr(), err)
 					}
 					resent = true
 					if _, err := marker.Write([]byte(want + "-again")); err != nil {
